@@ -330,6 +330,26 @@ func ruleENG11(c *Ctx) {
 	// the firing passes the cycle's own check as well (every path from loop header to Execute passes a ctx check in this iteration)
 	okFire := edgesDominate(fn, execs[0].(ssa.Instruction), func(b *ssa.BasicBlock, si int) bool { return ctxGuardEdge(b, si, ctx, outer) })
 	c.Check(okFire, "ExecuteWithContext / firing dominated by a ctx check of the same cycle", p.InstrPos(execs[0]), "dominated", "a rule can fire in a cycle that never checked the context")
+	// a cancellation that lands inside the last condition or the last action of the run is still reported: no nil
+	// return is reachable from an evaluation or a firing without passing a context check
+	for _, site := range []ssa.CallInstruction{evals[0], execs[0]} {
+		t, path := reach(fn, site.(ssa.Instruction), func(in ssa.Instruction) bool {
+			r, ok := in.(*ssa.Return)
+			return ok && len(r.Results) == 1 && isNilConst(r.Results[0])
+		}, func(in ssa.Instruction) bool {
+			if _, isIf := in.(*ssa.If); !isIf {
+				return false
+			}
+			okc, _ := ctxTest(in.Block(), ctx)
+			return okc
+		}, nil)
+		construct := "ExecuteWithContext / nil is returned only after a ctx check that follows the last " + calleeName(site)[strings.LastIndex(calleeName(site), ".")+1:]
+		if t == nil {
+			c.OK(construct, p.InstrPos(site), "every path to the nil return passes a ctx.Err() test")
+		} else {
+			c.Fail(construct, p.InstrPos(site), "the nil return at "+p.InstrPos(t)+" is reachable without looking at the context again: a cancellation inside the last condition (nothing runnable afterwards) or inside an action that then completes the run is answered with nil instead of the context's error", pathString(p, path)...)
+		}
+	}
 	// the evaluation context handed down is the caller's context
 	c.Check(unspill(evals[0].Common().Args[1]) == ssa.Value(ctx) && unspill(execs[0].Common().Args[1]) == ssa.Value(ctx), "ExecuteWithContext / the caller's context is handed to Evaluate and Execute", p.InstrPos(evals[0]), "same ctx value", "RuleEntry.Evaluate/Execute receive a context other than the caller's (cancellation is not seen below the engine)")
 	// non-nil edges return ctx.Err() (or %w of it)
